@@ -303,5 +303,115 @@ class TextsPart(Part):
         return res
 
 
+PLAIN_FILES = {
+    "bom-first": "\ufeffhostname edge-router-7\ninterface Ethernet1\n description uplink\n",
+    "bom-only-line": "\ufeff\nend\n",
+    "bom-inside": "hostname a\n\ufeffinterface b\n x \ufeff y\n",
+    "crlf": "hostname a\r\n interface b\r\n\r\nend\r\n",
+    "lone-cr": "hostname a\rinterface b\rend\r",
+    "mixed-terminators": "a b\r\nc d\ne f\rg h",
+    "no-final-newline": "hostname a\n  end",
+    "blank-lines": "\n\n \n\t\n",
+    "form-feed-etc": "a\x0cb c\n\x0c\nd\x0be\n f\x1cg\n h\x1a\n\x00 i\x00\n",
+    "unicode-separators": "a\u2028b c\nd\u0085e\n f\u2029 g\n",
+    "non-ascii": "description Stra\u00dfe \u00fcber caf\u00e9 \u4e2d\u6587 \U0001F600\n",
+    "trailing-blanks": "hostname a   \n\tinterface b\t\n end \t \n",
+    "inner-runs": "interface   Ethernet1     description  x\ty\t\tz\n",
+    "long-line": "description " + "word " * 3000 + "end\n",
+    "empty": "",
+}
+
+
+def _collapse(text):
+    out = []
+    for body, term in split_keep(text):
+        if body.strip() == "":
+            out.append(body + term)
+        else:
+            out.append(lws(body) + " ".join(body.split()) + tws(body) + term)
+    return "".join(out).encode("utf-8")
+
+
+class PlainFilesPart(Part):
+    name = "files_without_sensitive_items"
+    desc = "files with no sensitive item (BOM, CR/CRLF/mixed terminators, control and non-ASCII characters) x feature subsets x file entry points: output bytes == input bytes"
+
+    def __init__(self, tier, seed):
+        self.tier, self.seed = tier, seed
+
+    def cases(self):
+        return [{"F": F} for F in feature_sets() if not F["undo"]]
+
+    def run(self, case):
+        from netconan.anonymize_files import anonymize_files
+        from netconan.netconan import main
+
+        res = Res()
+        F = case["F"]
+        names = [case["file"]] if "file" in case else sorted(PLAIN_FILES)
+        entries = [case["entry"]] if "entry" in case else ["anonymize_file", "anonymize_files", "directory", "main"]
+        root = seams.scratch_dir("c12p")
+        try:
+            for entry in entries:
+                if entry == "main" and not any(F[k] for k in ("pwd", "ip", "word", "as")):
+                    continue
+                ind, outd = os.path.join(root, entry, "in"), os.path.join(root, entry, "out")
+                seams.write_tree(ind, {n + ".cfg": PLAIN_FILES[n].encode("utf-8") for n in names})
+                os.makedirs(outd, exist_ok=True)
+                kw = dict(anon_pwd=F["pwd"], anon_ip=F["ip"], salt="saltForTest",
+                          sensitive_words=list(WORDS) if F["word"] else None,
+                          as_numbers=list(ASNS) if F["as"] else None)
+                try:
+                    with seams.capture_logs():
+                        if entry == "directory":
+                            anonymize_files(ind, outd, **kw)
+                        elif entry == "main":
+                            argv = ["-i", ind, "-o", outd, "-s", "saltForTest"]
+                            argv += ["-p"] if F["pwd"] else []
+                            argv += ["-a"] if F["ip"] else []
+                            argv += ["-w", ",".join(WORDS)] if F["word"] else []
+                            argv += ["-n", ",".join(ASNS)] if F["as"] else []
+                            with seams.capture_stdio():
+                                main(argv)
+                        else:
+                            for n in names:
+                                a, b = os.path.join(ind, n + ".cfg"), os.path.join(outd, n + ".cfg")
+                                if entry == "anonymize_file":
+                                    make(F).anonymize_file(a, b)
+                                else:
+                                    anonymize_files(a, b, **kw)
+                except Exception as e:
+                    res.violation("exception:" + type(e).__name__ + "|" + entry, "F=%r: %r" % (F, e),
+                                  {"F": F, "entry": entry})
+                    continue
+                got = seams.read_tree(outd)
+                for n in names:
+                    res.evals += 1
+                    want = PLAIN_FILES[n].encode("utf-8")
+                    have = got.get(n + ".cfg")
+                    if (F["pwd"] or F["word"]) and have is not None and have != want:
+                        # the one permitted change: inner whitespace runs may collapse to one space
+                        try:
+                            want, have = _collapse(want.decode("utf-8")), _collapse(have.decode("utf-8"))
+                        except UnicodeDecodeError:
+                            pass
+                    res.nt((tuple(sorted(k for k in F if F[k])), n, entry))
+                    res.out((n, have == want))
+                    if have != want:
+                        i = 0
+                        while have is not None and i < min(len(have), len(want)) and have[i] == want[i]:
+                            i += 1
+                        res.violation("file-without-sensitive-items-changed|%s|%s" % (n, entry),
+                                      "features %s, entry %s: file %s differs from byte %d: input %r output %r" % (
+                                          "+".join(k for k in F if F[k]) or "none", entry, n, i,
+                                          want[max(0, i - 10): i + 30], None if have is None else have[max(0, i - 10): i + 30]),
+                                      {"F": F, "file": n, "entry": entry})
+            if "file" not in case:
+                res.samples.append({"features": F, "files": len(names), "entries": entries})
+        finally:
+            shutil.rmtree(root, ignore_errors=True)
+        return res
+
+
 def parts(tier, seed):
-    return [TextsPart(tier, seed)]
+    return [TextsPart(tier, seed), PlainFilesPart(tier, seed)]
